@@ -151,6 +151,27 @@ def nest(g, objs, p=0.3):
     return [{"kind": "block", "name": "Outer", "objects": [inner]}]
 
 
+
+def layout_directed(g):
+    """Directed layout cases (rounds 8 and 12: H12, P04 had only been caught by luck): commands whose bit overlap is allowed and
+    whose IN or OUT set holds one field that leaves the set (or is empty), the other side fine - each side is validated on its own."""
+    out = []
+    for side in ("in", "out"):
+        for defect in ("past_size", "empty", "fine"):
+            for size in (8, 12):
+                good = [{"name": "a", "base": "uint", "start": 0, "end": 4}, {"name": "b", "base": "uint", "start": 2, "end": 6}]
+                bad = list(good)
+                if defect == "past_size":
+                    bad = [{"name": "wide", "base": "uint", "start": 0, "end": size + 4}] + good[:1]
+                elif defect == "empty":
+                    bad = good + [{"name": "none", "base": "uint", "start": 5, "end": 5}]
+                o = {"kind": "command", "name": "Cmd", "address": "1", "allow_bit_overlap": True, "byte_order": "LE",
+                     "size_bits_in": size, "size_bits_out": size,
+                     "fields_in": bad if side == "in" else good, "fields_out": bad if side == "out" else good}
+                out.append(case({"config": {"register_address_type": "u8", "command_address_type": "u8"}, "objects": [o]},
+                                pick_syntax(g, (4, 4, 1, 1)), "layout"))
+    return out
+
 def prof_layout(g, n):
     return [dict(c, adef=dict(c["adef"], objects=nest(g, c["adef"]["objects"]))) for c in _prof_layout(g, n)]
 
@@ -339,7 +360,7 @@ def cases_for(prop, tier, seed):
     g = Gen(seed, stream=int(prop[1:]))
     k = 30 if thorough else 1
     if prop == "C11":
-        return CORPUS.get(prop, []) + prof_layout(g, 600 * k) + prof_mixed(g, 60 * k, depth=1, field_kw={"conv_p": 0.1})
+        return CORPUS.get(prop, []) + layout_directed(Gen(seed, stream=911)) + prof_layout(g, 600 * k) + prof_mixed(g, 60 * k, depth=1, field_kw={"conv_p": 0.1})
     raise KeyError(prop)
 
 
@@ -1453,7 +1474,7 @@ def cases_for(prop, tier, seed):
         # the generated getter / setter wrappers of a field must name the same codec, orders and range
         return CORPUS.get(prop, []) + prof_layout(g, 150 * k) + [case(common_fragment_adef(g), pick_syntax(g, (3, 3, 2, 2)), "api") for _ in range(250 * k)]
     if prop == "C03":
-        return CORPUS.get(prop, []) + prof_layout(g, 400 * k) + [case(common_fragment_adef(g), pick_syntax(g), "api") for _ in range(200 * k)]
+        return CORPUS.get(prop, []) + layout_directed(Gen(seed, stream=911)) + prof_layout(g, 400 * k) + [case(common_fragment_adef(g), pick_syntax(g), "api") for _ in range(200 * k)]
     return _cases_for_base4(prop, tier, seed)
 
 
